@@ -11,6 +11,7 @@ LEVEL_NOTE = ("Trusted base: libzstd 1.5.7 (arbiter of validity), the RFC 8878 t
 
 CLAIMED = {
  "C01": ("differential: ruzstd vs original data / spec executor, 4 drivers, frames from 3 generated sources (reference compressor, reference entropy stage on perturbed parses, spec-directed synthesizer arbitrated by libzstd)", "5 C01"),
+ "C03": ("fuzzing: format-aware mutational PBT over valid frames (walker field map) through every entry point with reuse check + coverage-guided libFuzzer/ASan targets (bytes, arbitrary-decoded frame specs through the synthesizer, hostile dictionaries)", "5 C03"),
  "C04": ("model-based stateful PBT: generated op lists on RingBuffer / DecodeBuffer vs VecDeque model, canary+poison allocator; thorough adds ASan (libFuzzer target) and Miri replays of the same op lists", "5 C04"),
  "C05": ("PBT with counting allocator and closed-form bound; synthesized over-long blocks arbitrated by libzstd", "5 C05"),
  "C06": ("stateful PBT: generated driver programs (decode/drain schedules, sinks, source fragmentation) against ground-truth content", "5 C06"),
@@ -25,6 +26,9 @@ CLAIMED = {
  "C15": ("PBT with validity predicate: independent strict frame walker over compressor output + closed-form size bound", "5 C15"),
  "C16": ("PBT over programs: scripted Matcher replaying generated valid parses / libzstd parses; libzstd + own decoder + walker confirm", "5 C16"),
  "C17": ("stateful PBT + exhaustive small family: validity predicate over every sequence reported by the built-in matcher across eviction/skip/reset histories", "5 C17"),
+ "C18": ("differential PBT across four separately built binaries ({std,no_std} x {hash,no hash}) over a generated corpus", "5 C18"),
+ "C19": ("PBT over the real CLI binary: generated files x option matrix x failure scenarios, libzstd as arbiter of the archive", "5 C19"),
+ "C20": ("PBT with bounded work: generated sources x estimates x sizes; oracle = documented size bound + termination", "5 C20"),
  "C14": ("exhaustive enumeration of finite tables / header spaces against RFC 8878 tables (cross-checked with libzstd source)", "5 C14"),
 }
 
